@@ -199,6 +199,14 @@ def check_C07(ctx):
     summ = harness(ctx, ["flow", "replay", "--prop", "C07"], cases_file=f, name="flow-c07", timeout=3600)
     report_mismatches(ctx, summ, "HitObjects / TimingPoints disagree with Beatmap on a file with interleaved sections")
     os.remove(f)
+    # long behaviours of the same specification (tlc -simulate): 30 records, sections switching all the time
+    f = flow_cases(ctx, 30, simulate=2000 if thorough else 300)
+    summ = harness(ctx, ["flow", "replay", "--prop", "all"], cases_file=f, name="flow-sim", timeout=3600)
+    summ["mismatches"] = [m for m in summ.get("mismatches", []) if str(m.get("sig", "")).startswith(("c07:", "panic", "hang", "io-error"))]
+    summ["mismatch_count"] = len(summ["mismatches"])
+    summ["mismatch_sigs"] = {k: v for k, v in summ.get("mismatch_sigs", {}).items() if k.startswith(("c07:", "panic", "hang", "io-error"))}
+    report_mismatches(ctx, summ, "HitObjects / TimingPoints disagree with Beatmap on a long file with interleaved sections")
+    os.remove(f)
     summ = harness(ctx, ["c07", "relations", "--tier", ctx.tier], name="c07-rel", timeout=3600)
     report_mismatches(ctx, summ, "a specialised decoder disagrees with Beatmap on a whole map")
     ctx.assumptions += ["shared fields as listed in harness/src/framing.rs::c07_diffs"]
@@ -886,18 +894,21 @@ def check_C15(ctx):
                   "bundled and generated files; non-trivial = distinct cases with a slider or a break")
 
 
-def flow_cases(ctx, maxitems, emit=True, expect_violation=False):
-    """SectionFlow.tla: every sequence of section records (any section order, sections repeated) up to the bound."""
+def flow_cases(ctx, maxitems, emit=True, expect_violation=False, simulate=None):
+    """SectionFlow.tla: every sequence of section records (any section order, sections repeated) up to the bound,
+    or `simulate` random behaviours of exactly `maxitems` records."""
     sany(ctx, "SectionFlow")
-    name = "MC_SectionFlow_%d%s" % (maxitems, "_neg" if expect_violation else "")
+    name = "%s_SectionFlow_%d%s" % ("Sim" if simulate else "MC", maxitems, "_neg" if expect_violation else "")
     cases = os.path.join(ctx.work, name + ".ndjson")
     body = cases + ".body"
-    cfg = dict(spec="FSpec", invariants=["NegFinalGeneralIsUsed"] if expect_violation else ["FlowOnly", "EarlyGeneralIsEnough"],
+    # (simulated long behaviours are generated for the replay; the invariants are settled by the exhaustive runs)
+    cfg = dict(spec="FSpec", invariants=["NegFinalGeneralIsUsed"] if expect_violation else ([] if simulate else ["FlowOnly", "EarlyGeneralIsEnough"]),
                constants=dict(Alpha="<-AlphaShape", Gens="<-GensTwo", MaxLines="0", MinLines="0", Emit="FALSE", MaxObjs="0",
                               TimesSet='"small"', EmitPost="FALSE", Profile='"base"', MaxItems=str(maxitems),
+                              MinItems=str(maxitems if simulate else 0),
                               EmitFlow="TRUE" if emit and not expect_violation else "FALSE"))
-    r = tlc(ctx, "SectionFlow", name, cfg, workers=14, timeout=3000, cases_file=None if expect_violation or not emit else body,
-            expect_violation=expect_violation, count=not expect_violation)
+    r = tlc(ctx, "SectionFlow", name, cfg, workers=1 if simulate else 14, timeout=3000, cases_file=None if expect_violation or not emit else body,
+            expect_violation=expect_violation, count=not expect_violation, simulate=simulate, depth=maxitems + 3)
     if expect_violation or not emit:
         return None
     with open(cases, "w") as f:
